@@ -64,6 +64,7 @@ type run struct {
 	viol         string
 	violKey      string
 	callObj      *int
+	gaugeEmits   map[string]int
 	gate         chan struct{}
 }
 
@@ -127,6 +128,10 @@ type statser struct {
 
 func (s *statser) RegisterFlush() (<-chan time.Duration, func()) { return s.notify, func() {} }
 func (s *statser) Gauge(name string, v float64, tags gostatsd.Tags) {
+	if s.r.gaugeEmits == nil {
+		s.r.gaugeEmits = map[string]int{}
+	}
+	s.r.gaugeEmits[name]++
 	dump, _, _ := s.r.ccp.VerifDump()
 	pos, neg := 0, 0
 	for _, e := range dump {
@@ -255,8 +260,19 @@ func body(c cfg, r *run) func(*vsched.Exec) {
 			r.checkQuiescent("after the held calls returned", mock.Now(), true)
 		}
 		if c.Emit {
+			before := map[string]int{}
+			for k, n := range r.gaugeEmits {
+				before[k] = n
+			}
 			vsched.GoNamed("emitter-final", func() { vsched.Send(st.notify, time.Second) })
 			vsched.Quiesce("final-emit")
+			// gauges are last-value metrics: every flush has to report both sizes, also (and above all) when they are back at 0
+			for _, name := range []string{"cloudprovider.cache_positive", "cloudprovider.cache_negative"} {
+				if r.gaugeEmits[name] == before[name] {
+					dump, _, _ := ccp.VerifDump()
+					r.fail("gauge-not-emitted", fmt.Sprintf("a flush was announced and %s was not reported (the cache holds %d entries now, %d reports of this gauge so far)", name, len(dump), before[name]))
+				}
+			}
 		}
 	}
 }
